@@ -466,6 +466,15 @@ class Program:
         finally:
             self._prefer = old
 
+    def val_rvalue_in(self, fn, loc, rv, prefer_blocks, body=None):
+        """Value of an rvalue as seen along paths through `prefer_blocks` (see val_operand_in)."""
+        old = self._prefer
+        self._prefer = (fn.path, frozenset(prefer_blocks))
+        try:
+            return self.val_rvalue(fn, body or fn.body, loc, rv)
+        finally:
+            self._prefer = old
+
     def val_local_in(self, fn, body, loc, local):
         sites = body.reaching(loc, local)
         if self._prefer is not None and self._prefer[0] == fn.path and not body.tag and len(sites) > 1:
